@@ -158,7 +158,7 @@ SD(n, name, ty)        == Mem(CText(n), name, ty, FALSE, "")           \* ty yie
 SchemaNames == {"McReq", "GaReq", "CpReq", "CmReq", "CmParams", "LbReq",
                 "Rp", "User", "DescRef", "Desc", "Param", "AuthOptions", "McExt", "GaExtIn",
                 "HmacIn", "GaExtOut", "GetInfoResp", "GetInfoOptions", "Certifications",
-                "McResp", "GaResp", "CpResp", "CmResp", "LbResp", "PackedStmt", "CallerExt"}
+                "McResp", "GaResp", "CpResp", "CmResp", "LbResp", "PackedStmt", "CallerExt", "CallerWide"}
 
 \* "indexed" (integer keys, strict) or "struct" (text keys, unknown tolerated)
 SchemaKind(s) ==
@@ -167,6 +167,10 @@ SchemaKind(s) ==
     THEN "indexed" ELSE "struct"
 
 DescRefSeq(max) == T_Seq(T_Struct("DescRef"), max)
+
+WideNames == <<"k00", "k01", "k02", "k03", "k04", "k05", "k06", "k07", "k08", "k09", "k10", "k11", "k12", "k13", "k14", "k15",
+               "k16", "k17", "k18", "k19", "k20", "k21", "k22", "k23">>
+WideName(i) == WideNames[i]
 
 SchemaRaw(s, F) ==
   CASE s = "McReq" -> <<                                      \* CTAP 2.1 6.1, 2.2 adds 0x0B
@@ -257,6 +261,8 @@ SchemaRaw(s, F) ==
         SOF(N_thirdPartyPayment, "thirdPartyPayment", T_Bool, TPP) >>
     \* not a type of the crate: an extension-output type as a CALLER may define one (the
     \* authenticator-data type is generic in it); the harness defines it the same way
+    \* a caller-defined extension-output type with MANY members (a map head beyond 0xB7 / 0xB8)
+    [] s = "CallerWide" -> [i \in 1..24 |-> SO(<<107, 48 + ((i - 1) \div 10), 48 + ((i - 1) % 10)>>, WideName(i), T_U8)]
     [] s = "CallerExt" -> <<
         SO(N_credBlob, "credBlob", T_Bytes(400)),
         SO(N_hmacSecret, "hmacSecret", T_Bytes(400)) >>
